@@ -57,6 +57,7 @@ def analyse_variant(args):
         from .__main__ import run_property
         from .report import load_known, match_known
         chk, repo = run_property(prop, 'quick', 0, root=tmp)
+        chk.settle_restructuring(repo)
         known = load_known()
         viol = []
         counts = {}
@@ -412,7 +413,8 @@ def run(prop, repo, chk, seed):
     for n in must:
         viol, errs = results[n]
         new = [v for v in viol if v not in base_viol]
-        if not new:
+        # a wholesale rewrite is answered with "restructured, cannot decide" (exit 2, function named): reported, not silent
+        if not new and not any('RESTRUCTURED' in e for e in errs):
             fails.append('must-kill variant not detected: %s%s' % (n, (' (analysis errors: %s)' % errs[:2]) if errs else ''))
     benign = [n for n, k in kinds.items() if k == 'benign']
     for n in benign:
